@@ -374,7 +374,8 @@ def setValue (N : Num) (g : Group) : FieldTy → FVal → FVal × Status
     else if g.keyMaxInt > (n : Int) - 1 then (.array vs, .err)
     else let r := setIndexed N k g.points vs []; (.array r.1, r.2.2)
   | .map k, .map kvs =>
-    if g.points.length > maxStructureSize then (.map kvs, .err)
+    -- only points that add or update an entry count towards the size limit (tombstones only remove)
+    if (g.points.filter (fun p => !tombOdd p.tomb)).length > maxStructureSize then (.map kvs, .err)
     else let r := setMap N k g.points kvs; (.map r.1, r.2)
   | .struct fs, .struct vs => let r := setStruct N g.points fs vs; (.struct r.1, r.2)
   | .ptrStruct fs, .ptrStruct v =>
